@@ -68,7 +68,7 @@ def traces(prop, tier, seed):
             scripts.append({"tid": tid, "pairs": ps, "how": segs,
                             "store_ids": [x for x in im if rng.random() < 0.6] + ([5] if rng.random() < 0.3 else []),
                             "take": rng.choice([-1, -1, 0, 1, 2]), "lend": rng.random() < 0.4,
-                            "inexact": i % 2 == 1, "dead": [0, 0, 3, 1][i % 4]})
+                            "inexact": i % 2 == 1, "dead": [0, 0, 3, 1][i % 4], "two": i % 8 >= 4})
             tid += 1
     for j in range(params["rand"]):
         ids = rng.sample(FAR, rng.randint(1, 5))
@@ -77,7 +77,7 @@ def traces(prop, tier, seed):
         sc = {"tid": tid, "pairs": ps, "how": rng.choice(segmentations(n, rng, 3)),
               "store_ids": [x for x in FAR if rng.random() < 0.4],
               "take": rng.choice([-1, -1, 0, 1, 2, 3]), "lend": rng.random() < 0.4,
-              "inexact": rng.random() < 0.5, "dead": rng.choice([0, 0, 1, 3, 70])}
+              "inexact": rng.random() < 0.5, "dead": rng.choice([0, 0, 1, 3, 70]), "two": rng.random() < 0.5}
         if j % 4 == 0:
             sc["fclear"] = rng.choice([1, 1, 2, 3, 9])     # clear() with a panicking destructor (or none: k too large)
         elif j % 4 == 2:
